@@ -157,6 +157,47 @@ def run(ctx):
         terms.append("Bool.eqb (spec_convergence_params_ok %s %s) %s" % (T.N(k), T.N(nn), T.boolean(ok)))
         info.append(("guard", (k, nn), ok))
 
+    # large inputs and streaming use (direct oracle only: the Coq SHA-256 is not run on 1 MB): every data-hashing
+    # function and its hasher object, at sizes around the powers of two where a chunked implementation would cut
+    BIG = [65535, 65536, 65537, 131072, 131073, 262143, 262144, 262145, 300000, 393217, 524287, 524288, 524289,
+           786433, 900000, 1048576, 1048593]
+    big_fns = [("block_hash", b"allmydata_encoded_subshare_v1", H.block_hash, H.block_hasher),
+               ("uri_extension_hash", b"allmydata_uri_extension_v1", H.uri_extension_hash, H.uri_extension_hasher),
+               ("plaintext_hash", b"allmydata_plaintext_v1", H.plaintext_hash, H.plaintext_hasher),
+               ("crypttext_hash", b"allmydata_crypttext_v1", H.crypttext_hash, H.crypttext_hasher),
+               ("crypttext_segment_hash", b"allmydata_crypttext_segment_v1", H.crypttext_segment_hash, H.crypttext_segment_hasher),
+               ("plaintext_segment_hash", b"allmydata_plaintext_segment_v1", H.plaintext_segment_hash, H.plaintext_segment_hasher)]
+    rb = ctx.rng("big", 0)
+    blob = bytes(rb.getrandbits(8) for _ in range(4096)) * 257      # 1 MiB + 4 KiB of non-periodic-at-block-size data
+    blob = bytes((b + (i >> 12)) & 0xff for i, b in enumerate(blob))
+    for bi in range(ctx.n(24, 120)):
+        r = ctx.rng("bigcase", bi)
+        name, tag, fn, mk = big_fns[bi % len(big_fns)]
+        size = BIG[(bi // len(big_fns) + ctx.seed) % len(BIG)] if bi < 3 * len(big_fns) else r.choice(BIG) + r.choice([0, 0, 1, -1, 7, -4096])
+        off = r.randrange(0, len(blob) - size)
+        data = blob[off:off + size]
+        want = _tag(tag, data)
+        ctx.case(("big", name, size, off), kind="large:" + name)
+        got = fn(data)
+        if got != want:
+            ctx.oracle_fail("derivation-differs-from-spec:" + name, "%s of %d bytes = %s but the specification gives %s (input: blob[%d:%d])" % (
+                name, size, got.hex(), want.hex(), off, off + size), case={"fn": name, "size": size, "offset": off, "blob_seed": ctx.seed},
+                expected=want.hex(), observed=got.hex())
+        # the last byte must matter (a hasher that drops a tail would not notice)
+        if size and fn(data[:-1] + bytes([data[-1] ^ 1])) == got:
+            ctx.oracle_fail("hash-ignores-input-tail:" + name, "%s of %d bytes does not change when the last byte changes" % (name, size),
+                            case={"fn": name, "size": size, "offset": off, "blob_seed": ctx.seed})
+        h = mk()
+        cuts = sorted(r.randrange(size + 1) for _ in range(r.choice([0, 1, 2, 5])))
+        prev = 0
+        for c in cuts + [size]:
+            h.update(data[prev:c])
+            prev = c
+        if h.digest() != want:
+            ctx.oracle_fail("derivation-differs-from-spec:" + name + "er", "%ser fed %d bytes in pieces cut at %r gives %s, specification %s" % (
+                name, size, cuts, h.digest().hex(), want.hex()), case={"fn": name + "er", "size": size, "offset": off, "cuts": cuts, "blob_seed": ctx.seed},
+                expected=want.hex(), observed=h.digest().hex())
+
     bad = ctx.coq_check(IMPORTS, terms, tag="c17fn")
     for ix in bad:
         name, args, got = info[ix]
